@@ -44,7 +44,11 @@ def checkFF (kvs okv : List (String × String)) (rhs : String) : String := Id.ru
   let some a0 := (lookup kvs "a").bind parseNat? | return "FAIL PARSE a"
   let some b0 := (lookup kvs "b").bind parseNat? | return "FAIL PARSE b"
   let some c0 := (lookup kvs "c").bind parseNat? | return "FAIL PARSE c"
-  if !(Constants.exportedPrimes.contains P) then return s!"FAIL MODEL prime {P} is not in the generated list of exported primes"
+  -- `FiniteField<P>` is generic in `P`: besides the exported primes the stream samples three
+  -- moduli the crate does not export, inside the range (1, 2^127) all theorems are stated for
+  let extra : List Nat := [2 ^ 96 + 61, 2 ^ 107 - 1, 2 ^ 126 - 137]
+  if !(Constants.exportedPrimes.contains P) && !(extra.contains P) then
+    return s!"FAIL MODEL prime {P} is not in the generated list of exported primes"
   let (a, b, c) := (a0 % P, b0 % P, c0 % P)
   -- the model, in its checked (u128) reading: `none` = the Rust overflows/underflows
   let m : Option (List (String × String)) := do
@@ -59,7 +63,7 @@ def checkFF (kvs okv : List (String × String)) (rhs : String) : String := Id.ru
       ("ab_p_ac", toString d2), ("zero", toString (ffNew P 0)), ("one", toString (ffNew P 1)),
       ("subadd", toString sa)]
   if rhs.startsWith "panic:" then
-    return s!"FAIL SPEC finite-field arithmetic panicked ({rhs}) on reduced operands of an exported prime"
+    return s!"FAIL SPEC finite-field arithmetic panicked ({rhs}) on reduced operands of a modulus below 2^127"
   -- specification: integer arithmetic modulo P
   let spec : List (String × String) :=
     [("new", s!"{a},{b},{c}"), ("add", toString ((a + b) % P)), ("mul", toString (a * b % P)),
